@@ -33,6 +33,16 @@ class MachineryError(Exception):
     """exit 2: the checker itself failed (TLC crash, vacuity, spec/second-opinion disagreement)"""
 
 
+class SutCrash(Exception):
+    """the interpreter running the code under verification died of SIGSEGV / SIGABRT / SIGBUS / SIGILL / SIGFPE while it
+    executed claripy: that is behaviour of the code under verification (a violation of whatever property the worker was
+    exercising), not a failure of the checker.  SIGKILL (out of memory, timeouts) stays a machinery failure."""
+
+    def __init__(self, worker, job, signum, stderr):
+        super().__init__(f"worker {worker} died of signal {signum}")
+        self.worker, self.job, self.signum, self.stderr = worker, job, signum, stderr
+
+
 # ----------------------------------------------------------------------------------------------
 # scratch space (outside /repo and /verif, removed afterwards)
 # ----------------------------------------------------------------------------------------------
@@ -309,6 +319,8 @@ def pipeline(worker_module, jobs, tla_module, cfg="Empty.cfg", nproc=None, env=N
         je.update(job.get("env", {}))
         p = subprocess.run([PY, "-m", "harness." + worker_module, jf, prefix], cwd=VERIF, env=je,
                            capture_output=True, text=True, timeout=wtimeout)
+        if p.returncode in (-11, -6, -7, -4, -8):
+            raise SutCrash(worker_module, job, -p.returncode, p.stderr[-2000:])
         if p.returncode != 0:
             raise MachineryError(f"worker {worker_module} job {ix} failed rc={p.returncode}\n{p.stderr[-3000:]}")
         with open(prefix + ".stats.json") as f:
@@ -365,10 +377,19 @@ def merge_stats(stats):
     return out
 
 
-def main_wrapper(fn):
+def main_wrapper(fn, pid="?", tier="quick"):
     """run a check function returning an exit code; map machinery failures to exit 2"""
     try:
         rc = fn()
+    except SutCrash as ex:
+        os.makedirs(REPLAY, exist_ok=True)
+        path = os.path.join(REPLAY, f"{pid}-{tier}-crash.json")
+        with open(path, "w") as f:
+            json.dump({"property": pid, "clause": "interpreter-crash", "signal": ex.signum, "worker": ex.worker,
+                       "job": ex.job, "stderr_tail": ex.stderr}, f, indent=1, default=str)
+        print(f"VIOLATION property={pid} replay={path}")
+        print(f"  the interpreter executing claripy died of signal {ex.signum} in worker {ex.worker} (job in the replay file)")
+        rc = 1
     except MachineryError as ex:
         print("MACHINERY-ERROR:", str(ex)[:4000])
         rc = 2
